@@ -13,10 +13,14 @@ import warnings
 
 import numpy as np
 
-RULE = ('random strongly connected non-negative count matrices with 2..8 states of 8 kinds '
+RULE = ('(a) random strongly connected non-negative count matrices with 2..8 states of 8 kinds '
         '(dense integers; integers with zeros; reals; wide-range reals; symmetric; strongly '
         'asymmetric; zero diagonal; metastable = heavy diagonal) each with a random Hamiltonian '
-        'cycle for connectivity, run through _prinz_mle_py, _prinz_mle (compiled), builders.mle '
+        'cycle for connectivity; (b) a structured family, 3..8 states, integer and real counts, randomly '
+        'relabelled: >= 2 pendant states (zero diagonal, one partner, both directions) on a hub / on a chain / '
+        'as rare states around a heavy core / mixed with self-counting leaves, states with only self counts '
+        'plus one partner, nearly closed pairs (tiny a), plus hand-written minimal instances; (c) closed pairs '
+        '(a == 0, outside the quantifier, correspondence only); all run through _prinz_mle_py, _prinz_mle (compiled), builders.mle '
         '(ndarray int/float and the 7 scipy sparse-matrix formats); every case is non-trivial '
         '(at least one sweep changes X unless C is symmetric); distinct by the matrix itself')
 ASSUMPTIONS = [
@@ -210,6 +214,109 @@ def gen_matrix(rng, n, kind):
             return C
 
 
+STRUCT_SHAPES = ['pendant-hub', 'pendant-chain', 'pendant-core-rare', 'pendant-mixed',
+                 'self-plus-one', 'near-closed-pair']
+
+
+def gen_structured(rng, n, shape, real=False):
+    """Strongly connected count matrices with the local structures on which the pair / diagonal
+    updates degenerate (c == 0, X_rs[i] == X[i,j], tiny a):
+      pendant state      zero diagonal, exactly one partner, counts in both directions
+      self-plus-one      only self counts plus one partner (both directions)
+      near-closed pair   two states exchanging counts almost only with each other (a small, not 0)
+    k >= 2 such states per matrix (as many as fit), 3 <= n <= 8."""
+    def cnt(lo, hi):
+        return float(rng.uniform(lo, hi)) if real else float(rng.integers(int(lo), int(hi) + 1))
+
+    assert n >= 3
+    C = np.zeros((n, n))
+    if shape in ('pendant-hub', 'pendant-chain', 'pendant-core-rare', 'pendant-mixed', 'self-plus-one'):
+        kmax = n - 1 if shape == 'pendant-hub' else max(2, n - 2)
+        k = int(rng.integers(2, kmax + 1)) if kmax >= 2 else 2
+        k = min(k, n - 1)
+        m = n - k                      # core states 0..m-1, special states m..n-1
+        big = shape == 'pendant-core-rare'
+        # core
+        if shape == 'pendant-hub':
+            m, k = 1, n - 1 if rng.random() < 0.5 else k
+            m = n - k
+        for i in range(m):
+            C[i, i] = cnt(50, 400) if big else cnt(0, 9)
+        if shape == 'pendant-chain':
+            for i in range(m - 1):
+                C[i, i + 1] = cnt(1, 9)
+                C[i + 1, i] = cnt(1, 9)
+        else:
+            for i in range(m):
+                for j in range(m):
+                    if i != j and (big or rng.random() < 0.8):
+                        C[i, j] = cnt(20, 200) if big else cnt(1, 12)
+            for i in range(m - 1):      # keep the core connected
+                if C[i, i + 1] == 0:
+                    C[i, i + 1] = cnt(1, 5)
+                if C[i + 1, i] == 0:
+                    C[i + 1, i] = cnt(1, 5)
+        if m == 1 and C[0, 0] == 0 and rng.random() < 0.5:
+            C[0, 0] = cnt(1, 9)
+        # special states, each attached to one core state (several may share a partner)
+        for s_ in range(m, n):
+            p = int(rng.integers(0, m)) if shape != 'pendant-chain' else int(rng.choice([0, m - 1, int(rng.integers(0, m))]))
+            lo, hi = (1, 3) if big else (1, 9)
+            C[s_, p] = cnt(lo, hi)
+            C[p, s_] = cnt(lo, hi)
+            if shape == 'self-plus-one' or (shape == 'pendant-mixed' and (s_ - m) % 2 == 1):
+                C[s_, s_] = cnt(1, 30)
+    elif shape == 'near-closed-pair':
+        # states 0,1 exchange counts with each other, a single rare exit/entry links them to the rest
+        C[0, 1], C[1, 0] = cnt(20, 300), cnt(20, 300)
+        if rng.random() < 0.5:
+            C[0, 0] = cnt(0, 50)
+        if rng.random() < 0.5:
+            C[1, 1] = cnt(0, 50)
+        for i in range(2, n):
+            C[i, i] = cnt(0, 9)
+            for j in range(2, n):
+                if i != j and rng.random() < 0.8:
+                    C[i, j] = cnt(1, 12)
+        for i in range(2, n - 1):
+            if C[i, i + 1] == 0:
+                C[i, i + 1] = cnt(1, 5)
+            if C[i + 1, i] == 0:
+                C[i + 1, i] = cnt(1, 5)
+        C[int(rng.integers(0, 2)), 2] = cnt(1, 2)          # the rare exit
+        C[int(rng.integers(2, n)), int(rng.integers(0, 2))] = cnt(1, 2)   # the rare entry
+    else:
+        raise ValueError(shape)
+    # random relabelling: the update order (i < j) must not matter for the checks
+    perm = rng.permutation(n)
+    C = C[np.ix_(perm, perm)]
+    if not (strongly_connected(C) and np.all(C.sum(axis=1) > 0)):
+        return gen_structured(rng, n, shape, real)
+    return C
+
+
+def closed_pair_matrix(rng, n):
+    """OUTSIDE the property's quantifier (not strongly connected): states 0,1 send counts only to
+    each other (a == 0 for that pair) while the rest of the chain feeds into them.  Used only for
+    the model/implementation correspondence of the `a == 0` branch."""
+    C = np.zeros((n, n))
+    C[0, 1], C[1, 0] = float(rng.integers(1, 20)), float(rng.integers(1, 20))
+    for i in range(2, n):
+        for j in range(n):
+            if rng.random() < 0.7:
+                C[i, j] = float(rng.integers(1, 12))
+        if C[i].sum() - C[i, i] == 0:
+            C[i, 0] = 1.0
+    return C
+
+
+def count_pendants(C):
+    """states with zero self count and exactly one partner (counts in either direction)"""
+    n = len(C)
+    S = (C + C.T) > 0
+    return int(sum(1 for i in range(n) if C[i, i] == 0 and S[i].sum() - S[i, i] == 1))
+
+
 def loglik(C, T):
     """sum_ij C_ij log T_ij over the observed transitions (the property's likelihood)"""
     m = C > 0
@@ -259,6 +366,25 @@ def validity_problem(T, pi, tol=1e-9):
     return None
 
 
+KEY_ASSERT_C = 'assert-c-rounding'
+
+
+def _assert_site(e):
+    """source text of the `assert` that failed (works for the compiled module through the staged .pyx)"""
+    import traceback
+    try:
+        tb = traceback.extract_tb(e.__traceback__)[-1]
+        line = (tb.line or '').strip()
+        if not line and str(tb.filename).endswith('.pyx'):
+            from enspara.msm import builders
+            path = os.path.join(os.path.dirname(builders.__file__), os.path.basename(tb.filename))
+            with open(path) as f:
+                line = f.read().split('\n')[tb.lineno - 1].strip()
+        return line
+    except Exception:  # noqa
+        return ''
+
+
 class _CpuTimeout(Exception):
     pass
 
@@ -300,7 +426,7 @@ def call_impl(f, C, cpu_seconds=None, **kw):
     except _CpuTimeout:
         return {'error': 'cpu-timeout', 'msg': 'exceeded %s s of CPU time' % cpu_seconds}
     except AssertionError as e:
-        return {'error': 'assertion', 'msg': str(e)[:200]}
+        return {'error': 'assertion', 'msg': str(e)[:200], 'site': _assert_site(e)}
     except TypeError as e:
         if 'category must be a Warning subclass' in str(e):
             return {'error': 'type-error', 'msg': str(e)[:200]}
@@ -393,6 +519,9 @@ def check_matrix(ctx, C, kind, m_py, m_c, sparse_fmt=None, int_dtype=False):
     rep = case_dict(C, kind)
     n = len(C)
     tags = ['kind=' + kind, 'n=%d' % n]
+    if kind.startswith('struct:'):
+        tags.append('pendants=%d' % min(count_pendants(C), 4))
+        tags.append('real-counts' if np.any(C != np.round(C)) else 'int-counts')
     ctx.case(rep, nontrivial=True, tags=tags)
 
     results = {}
@@ -426,7 +555,13 @@ def check_matrix(ctx, C, kind, m_py, m_c, sparse_fmt=None, int_dtype=False):
                 ctx.violation('%s estimator: iteration cap reached and warnings.warn raised TypeError '
                               'instead of a ConvergenceWarning' % impl, r)
             elif got['error'] == 'assertion':
-                ctx.violation('%s estimator ended in an AssertionError (%s)' % (impl, got['msg']), r)
+                # `assert c <= 0` is a theorem in exact arithmetic (C12.c_nonpos): when it fires and the
+                # Float model fires too, it is the rounding of the running row sums
+                key = KEY_ASSERT_C if (got.get('site', '').startswith('assert c <= 0')
+                                       and mres.get('error') == 'assertion') else None
+                ctx.tag('assert-c-fired')
+                ctx.violation('%s estimator ended in an AssertionError at `%s` %s' % (
+                    impl, got.get('site', '?'), got['msg']), r, key=key)
             else:
                 ctx.violation('%s estimator raised %s: %s' % (impl, got['error'], got['msg']), r)
             compare_with_model(ctx, C, impl, got, mres, '%s estimator' % impl, r, rerun=rerun)
@@ -516,12 +651,15 @@ def check_matrix(ctx, C, kind, m_py, m_c, sparse_fmt=None, int_dtype=False):
             To = np.asarray(To.toarray() if sp.issparse(To) else To, dtype=float)
             got = {'ok': (To, np.asarray(pio, dtype=float))}
         except AssertionError as e:
-            got = {'error': 'assertion', 'msg': str(e)[:100]}
+            got = {'error': 'assertion', 'msg': str(e)[:100], 'site': _assert_site(e)}
         except Exception as e:  # noqa
             got = {'error': type(e).__name__, 'msg': str(e)[:100]}
         r = dict(rep, via='builders.mle', fmt=sparse_fmt, int_dtype=bool(int_dtype))
         if 'error' in got:
-            ctx.violation('builders.mle raised %s (%s)' % (got['error'], got['msg']), r)
+            key = KEY_ASSERT_C if (got['error'] == 'assertion' and got.get('site', '').startswith('assert c <= 0')
+                                   and m_py.get('error') == 'assertion') else None
+            ctx.violation('builders.mle raised %s (%s)' % (got['error'], got.get('site') or got['msg']), r, key=key)
+            compare_with_model(ctx, C, 'py', got, m_py, 'builders.mle', r)
         else:
             prob = validity_problem(*got['ok'])
             if prob:
@@ -568,6 +706,34 @@ def warn_site_check(ctx):
     ctx.note('warn_call_sites', facts)
 
 
+def closed_pair_correspondence(ctx):
+    """`a == 0` branch inside a larger matrix.  Such matrices are NOT strongly connected (outside the
+    property's quantifier), so only model/implementation and py/compiled correspondence is checked
+    and every mismatch is reported as a disagreement."""
+    from enspara.msm import builders
+    mats = [closed_pair_matrix(ctx.rng, int(ctx.rng.integers(3, 7))) for _ in range(ctx.n(6, 60))]
+    reqs = []
+    for C in mats:
+        reqs += [model_req(C, 'py'), model_req(C, 'compiled')]
+    resp = ctx.driver(reqs)
+    for k, C in enumerate(mats):
+        res = {}
+        for impl, f, m in (('py', builders._prinz_mle_py, resp[2 * k]),
+                           ('compiled', builders._prinz_mle, resp[2 * k + 1])):
+            got = call_impl(f, C, cpu_seconds=ctx.n(20, 90))
+            res[impl] = got
+            ctx.tag('closed-pair(a==0)-correspondence')
+            if got.get('error') == 'cpu-timeout':
+                continue
+            compare_with_model(ctx, C, impl, got, model_result(m), '%s estimator, closed pair' % impl,
+                               dict(case_dict(C, 'closed-pair'), via=impl))
+        if 'ok' in res['py'] and 'ok' in res['compiled'] and \
+                not (res['py']['warned'] or res['compiled']['warned']) and \
+                maxdiff(res['py']['ok'], res['compiled']['ok']) > 1e-4:
+            ctx.disagreement('py and compiled estimators differ on a closed-pair matrix',
+                             dict(case_dict(C, 'closed-pair'), via='cross'))
+
+
 def plan(ctx):
     """list of (C, kind, sparse_fmt, int_dtype)"""
     out = []
@@ -582,6 +748,22 @@ def plan(ctx):
             C = gen_matrix(ctx.rng, n, kind)
             fmt = None if r % 3 == 0 else SPARSE_FORMATS[(k // 3) % 7]
             out.append((C, kind, fmt, r % 2 == 0))
+    # structured family: >= 2 pendant states (c == 0 exactly for their pair), states with only self
+    # counts plus one partner, nearly closed pairs (tiny a); hub / chain / core-plus-rare shapes
+    sreps = ctx.n(8, 120)
+    for si, shape in enumerate(STRUCT_SHAPES):
+        for r in range(sreps):
+            n = 3 + ((r + si) % 6)
+            C = gen_structured(ctx.rng, n, shape, real=(r % 2 == 1))
+            fmt = None if r % 2 == 0 else SPARSE_FORMATS[(r // 2 + si) % 7]
+            out.append((C, 'struct:' + shape, fmt, True))
+    for Cs in ([[0, 2, 0], [1, 3, 4], [0, 1, 0]],                 # two pendants on one hub
+               [[0, 1, 6], [4, 0, 0], [2, 0, 0]],                 # hub without self counts
+               [[0, 3, 0, 0], [2, 0, 5, 0], [0, 1, 4, 2], [0, 0, 6, 0]],          # chain, pendant ends
+               [[0, 2, 0, 0, 0], [1, 7, 3, 0, 0], [0, 2, 9, 1, 0], [0, 0, 4, 5, 2], [0, 0, 0, 3, 0]],
+               [[4, 2, 0], [1, 3, 4], [0, 1, 6]],                 # self-plus-one ends
+               [[0, 90, 1, 0], [80, 5, 0, 0], [0, 1, 3, 4], [1, 0, 2, 6]]):       # nearly closed pair
+        out.append((np.array(Cs, dtype=float), 'struct:hand', 'csr', True))
     # hand-picked edges
     out.append((np.array([[0., 1.], [1., 0.]]), 'zero-diag', 'csr', True))
     out.append((np.array([[0., 2.], [1., 0.]]), 'zero-diag', None, True))
@@ -606,6 +788,7 @@ def run(ctx):
         if 'ok' in m_py:
             sweeps.append(m_py['n_iter'] + 1)
         check_matrix(ctx, C, kind, m_py, m_c, sparse_fmt=fmt, int_dtype=intd)
+    closed_pair_correspondence(ctx)
     if sweeps:
         ctx.note('model_sweeps', {'min': int(min(sweeps)), 'median': int(np.median(sweeps)),
                                   'max': int(max(sweeps))})
@@ -617,6 +800,13 @@ def replay(ctx, data):
         return
     C = mat_unbits(data['C'])
     kind = data.get('kind', 'int-dense')
+    if kind == 'closed-pair':
+        from enspara.msm import builders
+        for impl, f in (('py', builders._prinz_mle_py), ('compiled', builders._prinz_mle)):
+            m = model_result(ctx.driver([model_req(C, impl)])[0])
+            compare_with_model(ctx, C, impl, call_impl(f, C, cpu_seconds=60), m,
+                               '%s estimator, closed pair' % impl, dict(data, via=impl))
+        return
     r = ctx.driver([model_req(C, 'py'), model_req(C, 'compiled')])
     check_matrix(ctx, C, kind, model_result(r[0]), model_result(r[1]),
                  sparse_fmt=data.get('fmt'), int_dtype=data.get('int_dtype', False))
